@@ -1561,7 +1561,9 @@ where
     };
 
     match &self.cbor {
-      Value::Bytes(b) => {
+      // a byte string is only measured against a range under `.size`
+      // (`bstr .size (1..4)`); a plain integer range never matches it
+      Value::Bytes(b) if matches!(self.state.ctrl, Some(ControlOperator::SIZE)) => {
         let len = b.len() as i128;
         if is_inclusive {
           if len < l || len > u {
